@@ -565,8 +565,7 @@ package lib
 //@   assigns memory
 //@   trusted
 //@ func Proxy(reg *DecoyRegistration, clientConn net.Conn, logger *log.Logger)
-//@   requires reg != nil && clientConn != nil && logger != nil && reg.TransportPtr != nil && *reg.TransportPtr != nil && reg.RegistrationSource != nil
-//@   requires addrFree(errConnReset) && addrFree(errConnRefused) && addrFree(errConnAborted) && addrFree(errUnreachable) && addrFree(errConnTimeout) && addrFree(errNetOp) && addrFree(io.ErrShortWrite)
+//@   requires @SAFETY: reg != nil && clientConn != nil && logger != nil && reg.TransportPtr != nil && *reg.TransportPtr != nil && reg.RegistrationSource != nil
 //@   atcall net.Dial after: snap covert := res0
 //@   atcall net.Dial after: snap dialErr := res1
 //@   atcall halfPipe before: assert @C05: defined(covert) && ((arg0 == clientConn && arg1 == covert) || (arg0 == covert && arg1 == clientConn)) && arg2 == &wg && arg5 == tunStats
